@@ -116,6 +116,69 @@ CLAIMS = {
             "equal and correct summaries; add_* guards and element-wise sums; the running average never reads the array it is "
             "overwriting and both rolling loops use the floor(w/2) window table. Gain, phase and end effects are not decided.",
             "Trusted: SciPy rows butter/filtfilt (zero phase, squared magnitude); libns treats a literal __all__ in numpy's stub as authoritative."),
+    "C11": ("truth-table comparison of the max/min direction tests and strides, belief-consistency rule on the direction source, "
+            "provenance of the index map, literal/decision tables of the cycle counter",
+            "Decides only: 'max' and 'min' take complementary strides of one index array for every sign of one and the same "
+            "direction expression (so their union is all reported peaks and their intersection empty), oriented so that a rising "
+            "first segment puts maxima at odd positions; that direction is not an adjacent difference of the uncleaned input; "
+            "reported indices are np.take(map, cleaned peaks) with map and cleaned array from the same cleaning call and the "
+            "detector inserting 0 and len-1 around strictly negative products of differences; the cycle counter has the record's "
+            "length with the stated 0.5 / -0.25 / 0.0 constants and exhaustive option tables. Soundness and completeness of the "
+            "detection over all rise/fall/flat patterns is NOT decided (needs enumeration: another technique family).",
+            "Thin claim: necessary structural conditions only."),
+    "C12": ("comparison-site enumeration (strictness), taint of the tolerance path, index-coverage analysis of the candidate "
+            "lists, selection provenance",
+            "Decides only: crossings are strictly negative neighbour products, zeros are `== 0`, adjacent zeros dropped by `> 1`, the "
+            "result is the sorted concatenation of exactly those two index sets with 0 prepended when absent; tol > 0 only deletes "
+            "(subsequence), tol < 0 raises; in the switched-peak routine every peak index 0..n-1 enters a candidate set with its own "
+            "value (no placeholder), the loop appends value and index in lock step over range(1, len), the chosen index is "
+            "argmax|.| mapped through the candidates' index list and np.take(peak_indices, .), excursions end on a non-strict "
+            "product. Exactness over all sign/zero patterns is NOT decided.",
+            "Thin claim: necessary structural conditions only."),
+    "C13": ("degree inference with one symbolic exponent (Laurent polynomials in b), separate-atom runs for the inverse-pair "
+            "bookkeeping, monotone/length typing, event-order rule for the rebase",
+            "Derives for all series and all b: cycles have degree 0 and amplitudes degree (1/b)*b = 1 when record and reference "
+            "scale together, all even; cycles ~ peak^(1/b)*a_ref^(-1/b) and amplitudes ~ N^(-b) with the same half-cycle weight; "
+            "results have the record's length, are non-negative, amplitudes non-decreasing; both peak-only series rebase a fresh "
+            "copy before cleaning and scatter through the index map of the same cleaning call into zeros of the input's length. "
+            "The conservation identities (total variation, signed sum), the 2^b relation and the numerical inverse are NOT decided.",
+            "Trusted: API rows; documented exception: a literal <= 1e-12 selected by np.where stands for zero."),
+    "C15": ("library-call skeleton comparison of the two implementations (value-numbered lengths), linearity/dtype/shape typing, "
+            "abs-before-ordering and axis checks",
+            "Decides only: both transforms have the same skeleton (even truncation as FFT length on the record itself, conj on the "
+            "first Toeplitz argument only, rows 1:n/2+1, Gaussian window, inverse FFT along axis 1, flipud) and are linear, complex, "
+            "(n/2) x n; the inverse is linear, sums over time, rebuilds the Hermitian halves leaving bins 0 and n/2 zero and returns "
+            "the real part; dominant-frequency helpers take argmax(abs(.), axis=0) through a flipped frequency axis of degree -1 in "
+            "dt. The Gaussian width, the conjugation convention against the textbook definition, the marginal and inverse to "
+            "rounding are NOT decided (a width change in the shared window is invisible to a sibling comparison).",
+            "Thin claim; trusted: API rows fft/ifft/toeplitz."),
+    "C18": ("polynomial normal form of the rotation, def-use of the scan's loop variable, loop-variable selection rule over the "
+            "Cluster loops, path enumeration for the master guard",
+            "Decides: combination = ns*cos(rad(angle)) + we*sin(rad(angle)) exactly, returned as an AccSignal with the first "
+            "component's dt; the scan uses linspace(0-off, 180-off, points), combines at degrees[loop variable] in (ns, we) order and "
+            "appends exactly one measure of that combination per iteration; in every Cluster loop the signal touched is selected "
+            "by the loop variable (or is the master); on the path loop variable == master_index nothing is modified; the "
+            "same-start correction is values - slave_average + master_average over one window with the master average taken from "
+            "master_index; time_match hands an ndarray back (via reset_values). The lag search's correctness is NOT decided.",
+            "Trusted: API rows; Cluster modelled by allocation-site summary objects."),
+    "C19": ("degree/parity/sign/monotone typing over all option combinations, normal forms of the wave construction and sign "
+            "tables, sibling summary equality, axis audit of reducing calls on the batch",
+            "Derives: energy = 0.5*v*|v| of the integrated velocity, degree 2 and odd; cumulative absolute change degree 2, even, "
+            "non-negative, non-decreasing along time; trimmed rows have length npts, a scalar travel time returns one row; nodal = "
+            "up - down, anti-nodal = up + down with up the zero-padded record and down np.interp(arange - 2*tt/dt, left=0, right=0); "
+            "both functions build the waves identically with up_red on the upward and down_red on the delayed wave; every "
+            "reducing/cumulative call on the (travel times x time) array works along time; join tables add/sub. Placement arithmetic "
+            "of put_array_in_2d_array / trim_to_length is NOT decided.",
+            "Trusted: API rows interp/pad/cumulative_trapezoid."),
+    "C20": ("parity inference instantiated over the documented powers, slice-bound value numbering, normal forms, decision-table "
+            "comparison of the two NZS functions, literal constant folding at breakpoints",
+            "Decides: the step-fit error is even in the data and of degree p for p in {1,2}; levels are means of values[:ind] and "
+            "values[ind+1:], default split the argmin; the rolling average keeps the length on all modes, is linear, uses one `steps` "
+            "for lag and divisor, pads with replicated edge values on the right side(s); interp_left = searchsorted(x, x0, "
+            "side='right') - 1 with scalar in/out; c_h_factor and sd_nzs have identical breakpoints and sd = c_h * T^2 per interval, "
+            "Z*N*R once, t_eff corner constants consistent; adjacent c_h branches agree within 1 % at breakpoints. interp2d and the NZS "
+            "numbers themselves against the standard are NOT decided.",
+            "Trusted: API rows; NZS continuity folds only literals of the tree (no eqsig code is run)."),
 }
 NOT_YET = "check not built yet (build in progress, see DESIGN.md section 8)"
 
